@@ -34,6 +34,10 @@ var VerifSink func(op *Operation, ev VerifEvent)
 
 var verifSeq uint64
 
+// Allocates a position in the event order for an event the harness logs itself (e.g. around a
+// blocking receive from Stalled()).
+func VerifNextSeq() uint64 { return atomic.AddUint64(&verifSeq, 1) }
+
 func verifEv(op *Operation, ev VerifEvent) {
 	sink := VerifSink
 	if sink == nil {
